@@ -11,12 +11,15 @@ import (
 	"fmt"
 	"io"
 	"regexp"
+	"sort"
 	"strconv"
 	"strings"
+	"sync"
 	"testing"
 
 	"github.com/daeuniverse/dae/common/consts"
 	"github.com/sirupsen/logrus"
+	"github.com/v2rayA/ahocorasick-domain"
 )
 
 func c11Hex(s string) string {
@@ -94,22 +97,198 @@ func c11Corrupt(r *VRand, p string, stats *VStats) string {
 	return string(b[:len(b)-r.Intn(2)])
 }
 
-var c11Regexes = []string{`^ad[0-9]+\.`, `\.cn$`, `(^|\.)example\.com$`, `[A-Z]`, `^$`, `goo+gle`, `^[a-z0-9.-]*$`, `_`, `\.\.`, `^www\.`, `xn--`, `^.{1,3}$`, `a.b`, `\.$`}
+var c11Regexes = []string{`^ad[0-9]+\.`, `\.cn$`, `(^|\.)example\.com$`, `[A-Z]`, `^$`, `goo+gle`, `^[a-z0-9.-]*$`, `_`, `\.\.`, `^www\.`, `xn--`, `^.{1,3}$`, `a.b`, `\.$`,
+	// Perl-only syntax (regexp.CompilePOSIX rejects these), flags, classes, lazy quantifiers
+	`^ad\d+\.`, `\bwww\b`, `(?i)EXAMPLE`, `(?:a|b)c\.`, `go+?gle`, `^\w+\.\w+$`, `\pL{5,}`, `[[:alpha:]]{6}`, `^\D+$`, `(?s)^.example`, `\Aapi\.`, `\.com\z`,
+	// sensitive to the sentinels, to the trailing dot and to the case of what is matched
+	`^[^^$]*$`, `\^`, `\$$`, `[^.]$`, `^[^A-Z]*$`, `\.com\.$`}
 
-type c11Set struct {
-	idx  int
-	kind string
+// names that the regexes above are about
+var c11RegexProbes = []string{"ad1.example.com", "ad12345.cdn.net", "adx.example.com", "www.example.com", "wwwx.example.com", "a.www.b",
+	"EXAMPLE.org", "my-example.net", "ac.com", "bc.org", "abc.", "gogle.com", "goooogle.cn", "google", "api.test.io", "xapi.test.io",
+	"foo.com", "foo.com.", "foo.com..", "foo.comx", "123.456", "a_b.c", "x.example", "xexample", "abcdef.io", "abcde1.io"}
+
+// ---- long names / patterns (length-gated fast paths would only show here) --------------------
+
+func c11LongLabel(r *VRand, n int) string {
+	const al = "abcdefghijklmnopqrstuvwxyz0123456789-_"
+	b := make([]byte, n)
+	for i := range b {
+		b[i] = al[r.Intn(len(al))]
+	}
+	return string(b)
+}
+
+// a name of roughly `total` bytes: either few very long labels (up to 63 bytes) or many short ones
+func c11LongName(r *VRand, total int) string {
+	parts := []string{}
+	n := 0
+	many := r.Bool()
+	for n < total {
+		l := r.Range(40, 63)
+		if many {
+			l = r.Range(1, 6)
+		}
+		if l > total-n {
+			l = total - n
+		}
+		if l < 1 {
+			l = 1
+		}
+		parts = append(parts, c11LongLabel(r, l))
+		n += l + 1
+	}
+	return strings.Join(parts, ".") + "." + c11Tlds[r.Intn(len(c11Tlds))]
+}
+
+var c11LongSizes = []int{52, 60, 63, 64, 65, 70, 120, 127, 128, 129, 140, 250, 253, 254, 255, 256, 260, 1000, 4100}
+
+// ---- the answer of the real matcher, raw ------------------------------------------------------
+
+func c11Words(bm []uint32) string {
+	if len(bm) == 0 {
+		return "-"
+	}
+	p := make([]string, len(bm))
+	for i, w := range bm {
+		p[i] = strconv.FormatUint(uint64(w), 16)
+	}
+	return strings.Join(p, ".")
+}
+
+func c11Query(m *AhocorasickSlimtrie, name string) string {
+	return VRecover(func() string { return "w=" + c11Words(m.MatchDomainBitmap(name)) })
+}
+
+func c11ErrClass(err error) string {
+	if err == nil {
+		return "ok"
+	}
+	msg := err.Error()
+	switch { // the class is a diagnostic; the check compares only "an error" vs "ok"
+	case strings.Contains(msg, "too many"):
+		return "err:toomany"
+	case strings.Contains(msg, "regex"):
+		return "err:regex"
+	case strings.Contains(msg, "RoutingDomainKey"):
+		return "err:kind"
+	case strings.Contains(msg, "out of range"):
+		return "err:char"
+	}
+	return "err:other"
+}
+
+func c11FnvStr(s string) uint64 {
+	h := uint64(14695981039346656037)
+	for i := 0; i < len(s); i++ {
+		h ^= uint64(s[i])
+		h *= 1099511628211
+	}
+	return h
+}
+
+type c11Sess struct {
+	m       *AhocorasickSlimtrie
+	regs    []*regexp.Regexp
+	pool    []string // full/suffix patterns (for probes)
+	kwPool  []string
+	allPats []string // every pattern text, in AddSet order (qall)
+}
+
+func (ss *c11Sess) add(st *VStream, idx int, kind string, pats []string) {
+	toks := make([]string, len(pats))
+	for i, p := range pats {
+		if kind == "regex" {
+			re, err := regexp.Compile(p)
+			ok := "1"
+			id := len(ss.regs)
+			if err != nil {
+				ok = "0"
+			} else {
+				ss.regs = append(ss.regs, re)
+			}
+			toks[i] = fmt.Sprintf("%s:%s:%d", c11Hex(p), ok, id)
+		} else {
+			toks[i] = c11Hex(p)
+		}
+	}
+	ss.allPats = append(ss.allPats, pats...)
+	ss.m.AddSet(idx, pats, consts.RoutingDomainKey(kind))
+	st.Emit(strings.TrimRight(fmt.Sprintf("add %d %s %s", idx, kind, strings.Join(toks, " ")), " "), "ok")
+}
+
+func (ss *c11Sess) build(st *VStream, stats *VStats) error {
+	// Build fans out into goroutines: a panic there cannot be recovered by the harness and kills the
+	// process.  Put the session on disk first so that the check can name the failing input.
+	st.ops.Flush()
+	st.impl.Flush()
+	err := ss.m.Build()
+	res := c11ErrClass(err)
+	stats.Inc("dm.build." + res)
+	st.Emit("build", res)
+	return err
+}
+
+func (ss *c11Sess) query(st *VStream, stats *VStats, name string) {
+	{ // queried names are ASCII (a pattern with a non-ASCII byte may have seeded the probe)
+		b := []byte(name)
+		for i := range b {
+			if b[i] >= 0x80 {
+				b[i] = 'z'
+			}
+		}
+		name = string(b)
+	}
+	norm := strings.ToLower(strings.TrimSuffix(name, "."))
+	hits := []string{}
+	for i, re := range ss.regs {
+		if re.MatchString(norm) {
+			hits = append(hits, strconv.Itoa(i))
+		}
+	}
+	hs := "-"
+	if len(hits) > 0 {
+		hs = strings.Join(hits, ",")
+	}
+	out := c11Query(ss.m, name)
+	if strings.Trim(out, "w=0.-") != "" {
+		stats.Inc("dm.probe.result.some_bit_set")
+	} else {
+		stats.Inc("dm.probe.result.no_bit")
+	}
+	if len(name) > stats.C["dm.name.len.max"] {
+		stats.C["dm.name.len.max"] = len(name)
+	}
+	if n := strings.Count(name, ".") + 1; n > stats.C["dm.name.labels.max"] {
+		stats.C["dm.name.labels.max"] = n
+	}
+	switch {
+	case len(name) >= 254:
+		stats.Inc("dm.name.len.254+")
+	case len(name) >= 64:
+		stats.Inc("dm.name.len.64-253")
+	case len(name) >= 52:
+		stats.Inc("dm.name.len.52-63")
+	}
+	st.Emit(fmt.Sprintf("q %s %s", c11Hex(name), hs), out)
+}
+
+func c11Max(stats *VStats, key string, v int) {
+	if v > stats.C[key] {
+		stats.C[key] = v
+	}
 }
 
 func c11RunSession(st *VStream, stats *VStats, r *VRand, bitLen int, nsets int, maxPat int, nq int) {
 	log := logrus.New()
 	log.SetOutput(io.Discard)
-	m := NewAhocorasickSlimtrie(log, bitLen)
+	ss := &c11Sess{m: NewAhocorasickSlimtrie(log, bitLen)}
 	st.Emit(fmt.Sprintf("new %d", bitLen), "ok")
+	if r.Chance(0.03) { // a query before any Build: nothing is indexed yet, all bits are 0
+		ss.query(st, stats, "example.com")
+		stats.Inc("dm.api.query_before_build")
+	}
 
-	var pool []string     // full/suffix patterns (for probes)
-	var kwPool []string   // keyword patterns
-	var regs []*regexp.Regexp
 	usedIdx := []int{}
 	for s := 0; s < nsets; s++ {
 		var idx int
@@ -124,18 +303,25 @@ func c11RunSession(st *VStream, stats *VStats, r *VRand, bitLen int, nsets int, 
 			}
 			fallthrough
 		default:
-			idx = r.Intn(bitLen)
+			idx = r.Intn(bitLen + 1)
+			if idx == bitLen && bitLen > 0 {
+				idx = bitLen - 1
+			}
 		}
 		if idx < 0 {
 			idx = 0
 		}
-		if r.Chance(0.01) {
+		if r.Chance(0.012) {
 			idx = bitLen + r.Intn(3) // oversized index: build error, not a panic
 			stats.Inc("dm.set.index_out_of_range")
 		}
+		if r.Chance(0.006) {
+			idx = -1 - r.Intn(3) // Go's int index may be negative: same error
+			stats.Inc("dm.set.index_negative")
+		}
 		usedIdx = append(usedIdx, idx)
 		kind := []string{"full", "suffix", "suffix", "suffix", "keyword", "regex", "full", "suffix"}[r.Intn(8)]
-		if r.Chance(0.005) {
+		if r.Chance(0.006) {
 			kind = "bogus"
 		}
 		var size int
@@ -149,6 +335,10 @@ func c11RunSession(st *VStream, stats *VStats, r *VRand, bitLen int, nsets int, 
 		default:
 			size = r.Range(maxPat/4, maxPat)
 		}
+		if r.Chance(0.03) {
+			size = 0 // an empty pattern list (for an unknown kind this is not an error)
+			stats.Inc("dm.set.empty_pattern_list")
+		}
 		if kind == "regex" && size > 6 {
 			size = r.Range(1, 6)
 		}
@@ -157,26 +347,29 @@ func c11RunSession(st *VStream, stats *VStats, r *VRand, bitLen int, nsets int, 
 		}
 		stats.Inc("dm.set.kind." + kind)
 		switch {
-		case size == 1:
-			stats.Inc("dm.set.size.1")
+		case size <= 1:
+			stats.Inc("dm.set.size.0-1")
 		case size <= 12:
 			stats.Inc("dm.set.size.2-12")
 		case size <= 200:
 			stats.Inc("dm.set.size.13-200")
 		default:
-			stats.Inc("dm.set.size.big")
+			stats.Inc("dm.set.size.201+")
 		}
+		c11Max(stats, "dm.set.size.max", size)
 		pats := make([]string, 0, size)
-		toks := make([]string, 0, size)
 		for len(pats) < size {
 			var p string
 			switch kind {
 			case "keyword":
-				if len(pool) > 0 && r.Chance(0.5) {
-					q := pool[r.Intn(len(pool))]
+				if len(ss.pool) > 0 && r.Chance(0.5) {
+					q := ss.pool[r.Intn(len(ss.pool))]
 					a := r.Intn(len(q) + 1)
 					b := a + r.Intn(len(q)-a+1)
 					p = q[a:b]
+					if len(p) > 40 {
+						p = p[:40]
+					}
 				} else {
 					p = c11Label(r)
 				}
@@ -192,26 +385,24 @@ func c11RunSession(st *VStream, stats *VStats, r *VRand, bitLen int, nsets int, 
 				case 3:
 					p = ""
 					stats.Inc("dm.pat.empty")
+				case 4:
+					p = "^" + p + "$"
+					stats.Inc("dm.pat.keyword_anchored")
+				case 5:
+					if r.Chance(0.3) {
+						p = []string{"^", "$", "^$", "a^b", "$a", "^^a", "a$$"}[r.Intn(7)]
+						stats.Inc("dm.pat.keyword_marker_oddity")
+					}
 				}
-				kwPool = append(kwPool, p)
-				toks = append(toks, c11Hex(p))
+				ss.kwPool = append(ss.kwPool, p)
 			case "regex":
 				p = c11Regexes[r.Intn(len(c11Regexes))]
 				if r.Chance(0.02) {
 					p = "(" // does not compile: AddSet records an error, Build fails
 					stats.Inc("dm.pat.regex_invalid")
 				}
-				re, err := regexp.Compile(p)
-				ok := "1"
-				id := len(regs)
-				if err != nil {
-					ok = "0"
-				} else {
-					regs = append(regs, re)
-				}
-				toks = append(toks, fmt.Sprintf("%s:%s:%d", c11Hex(p), ok, id))
 			default:
-				p = c11DomainPattern(r, pool, stats)
+				p = c11DomainPattern(r, ss.pool, stats)
 				switch r.Intn(40) {
 				case 0, 1:
 					p = c11Corrupt(r, p, stats)
@@ -227,62 +418,47 @@ func c11RunSession(st *VStream, stats *VStats, r *VRand, bitLen int, nsets int, 
 				case 5:
 					p = p + "."
 					stats.Inc("dm.pat.trailing_dot")
+				case 6, 7:
+					p = c11LongName(r, c11LongSizes[r.Intn(len(c11LongSizes)-2)]) // long pattern (up to ~260 bytes)
+					stats.Inc("dm.pat.long")
 				}
 				if kind == "suffix" && strings.HasPrefix(p, ".") {
 					stats.Inc("dm.pat.suffix_with_leading_dot")
 				}
-				pool = append(pool, p)
-				toks = append(toks, c11Hex(p))
+				c11Max(stats, "dm.pat.len.max", len(p))
+				ss.pool = append(ss.pool, p)
 			}
 			pats = append(pats, p)
 		}
-		m.AddSet(idx, pats, consts.RoutingDomainKey(kind))
-		st.Emit(fmt.Sprintf("add %d %s %s", idx, kind, strings.Join(toks, " ")), "ok")
+		ss.add(st, idx, kind, pats)
 	}
-	stats.Add("dm.patterns.total", len(pool)+len(kwPool))
+	stats.Add("dm.patterns.total", len(ss.pool)+len(ss.kwPool))
 
-	// Build fans out into goroutines: a panic there cannot be recovered by the harness and kills the
-	// process.  Put the session on disk first so that the check can name the failing input.
-	st.ops.Flush()
-	st.impl.Flush()
-	err := m.Build()
-	res := "ok"
+	err := ss.build(st, stats)
 	if err != nil {
-		msg := err.Error()
-		switch {
-		case strings.HasPrefix(msg, "too many routing rules"):
-			res = "err:toomany"
-		case strings.HasPrefix(msg, "failed to compile regex"):
-			res = "err:regex"
-		case strings.HasPrefix(msg, "unknown RoutingDomainKey"):
-			res = "err:kind"
-		case strings.HasPrefix(msg, "char out of range"):
-			res = "err:char"
-		default:
-			res = "err:" + msg
+		// nothing was indexed: every answer is all zeros; a further AddSet is ignored, Build fails again
+		ss.query(st, stats, "example.com")
+		if r.Bool() {
+			ss.add(st, 0, "bogus", []string{"x"}) // a second error of another class: the first one stays
+			stats.Inc("dm.api.second_error")
 		}
-		stats.Inc("dm.build." + res)
-	} else {
-		stats.Inc("dm.build.ok")
-	}
-	st.Emit("build", res)
-	if err != nil {
-		st.Emit("q "+c11Hex("example.com")+" -", "nobuild")
+		ss.build(st, stats)
+		ss.query(st, stats, "www.example.com.")
 		return
 	}
 
 	for q := 0; q < nq; q++ {
 		var name string
 		src := ""
-		if len(pool) > 0 && r.Chance(0.8) {
-			src = pool[r.Intn(len(pool))]
-		} else if len(kwPool) > 0 && r.Chance(0.5) {
-			src = c11Label(r) + kwPool[r.Intn(len(kwPool))] + c11Label(r) + ".com"
+		if len(ss.pool) > 0 && r.Chance(0.8) {
+			src = ss.pool[r.Intn(len(ss.pool))]
+		} else if len(ss.kwPool) > 0 && r.Chance(0.5) {
+			src = c11Label(r) + ss.kwPool[r.Intn(len(ss.kwPool))] + c11Label(r) + ".com"
 		} else {
 			src = c11Name(r)
 		}
 		bare := strings.TrimPrefix(src, ".")
-		switch r.Intn(16) {
+		switch r.Intn(19) {
 		case 0, 1:
 			name = src
 			stats.Inc("dm.probe.exact_pattern_text")
@@ -330,6 +506,20 @@ func c11RunSession(st *VStream, stats *VStats, r *VRand, bitLen int, nsets int, 
 		case 13:
 			name = []string{"", ".", "..", "a", "com", "a.", ".a"}[r.Intn(7)]
 			stats.Inc("dm.probe.degenerate")
+		case 14: // a long sub-name of the pattern: many labels or 63-byte labels in front
+			name = c11LongName(r, c11LongSizes[r.Intn(len(c11LongSizes))]) + "." + bare
+			stats.Inc("dm.probe.long_subname")
+		case 15: // a long glued prefix (no label boundary)
+			name = c11LongLabel(r, c11LongSizes[r.Intn(len(c11LongSizes))]) + bare
+			stats.Inc("dm.probe.long_glued")
+		case 16:
+			if len(ss.regs) > 0 {
+				name = c11RegexProbes[r.Intn(len(c11RegexProbes))]
+				stats.Inc("dm.probe.regex_derived")
+			} else {
+				name = c11Label(r) + "." + bare
+				stats.Inc("dm.probe.subname")
+			}
 		default:
 			name = c11Label(r) + "." + bare
 			stats.Inc("dm.probe.subname")
@@ -358,55 +548,204 @@ func c11RunSession(st *VStream, stats *VStats, r *VRand, bitLen int, nsets int, 
 				stats.Inc("dm.probe.two_trailing_dots")
 			}
 		}
-		if r.Chance(0.02) { // outside the property's alphabet: compared with the model of the code only
+		if r.Chance(0.02) { // outside the property's alphabet: diagnostic only
 			b := []byte(name + "x")
 			b[r.Intn(len(b))] = []byte{'^', '$', '/', ' ', '*', '@'}[r.Intn(6)]
 			name = string(b)
 			stats.Inc("dm.probe.outside_alphabet")
 		}
-		{ // queried names are ASCII (a pattern with a non-ASCII byte may have seeded the probe)
-			b := []byte(name)
-			for i := range b {
-				if b[i] >= 0x80 {
-					b[i] = 'z'
-				}
-			}
-			name = string(b)
-		}
-		norm := strings.ToLower(strings.TrimSuffix(name, "."))
-		hits := []string{}
-		for i, re := range regs {
-			if re.MatchString(norm) {
-				hits = append(hits, strconv.Itoa(i))
-			}
-		}
-		hs := "-"
-		if len(hits) > 0 {
-			hs = strings.Join(hits, ",")
-		}
-		op := fmt.Sprintf("q %s %s", c11Hex(name), hs)
-		out := VRecover(func() string {
-			bm := m.MatchDomainBitmap(name)
-			idxs := []string{}
-			for i := 0; i < len(bm)*32; i++ {
-				if bm[i/32]&(1<<(uint(i)%32)) != 0 {
-					idxs = append(idxs, strconv.Itoa(i))
-				}
-			}
-			if len(idxs) == 0 {
-				return "m=-"
-			}
-			return "m=" + strings.Join(idxs, ",")
-		})
-		if out != "m=-" {
-			stats.Inc("dm.probe.result.some_bit_set")
-		} else {
-			stats.Inc("dm.probe.result.no_bit")
-		}
-		st.Emit(op, out)
+		ss.query(st, stats, name)
 		if q < 2 {
-			stats.Sample(op + "   # name=" + strconv.Quote(name))
+			stats.Sample(fmt.Sprintf("q %s   # name=%s", c11Hex(name), strconv.Quote(name)))
 		}
+	}
+
+	// API misuse that dae itself never performs (observations, modelled so that they are not alarms):
+	switch r.Intn(25) {
+	case 0: // a second Build: the trie / keyword index lists are reset, only regex sets keep answering
+		ss.build(st, stats)
+		for i := 0; i < 6 && len(ss.pool) > 0; i++ {
+			ss.query(st, stats, strings.TrimPrefix(ss.pool[r.Intn(len(ss.pool))], "."))
+		}
+		stats.Inc("dm.api.second_build")
+	case 1: // AddSet after Build: the tables are gone, the call is an oversize error; queries unchanged
+		ss.add(st, 0, "full", []string{"late.example.com"})
+		ss.query(st, stats, "late.example.com")
+		ss.build(st, stats)
+		stats.Inc("dm.api.addset_after_build")
+	}
+}
+
+// one deterministic large session: `nSuffix` suffix patterns + `nFull` full patterns (with duplicates and
+// with the same name under both kinds, so that common.Deduplicate has work), then EVERY pattern text is
+// queried (op qall) and a sample is queried the normal way.
+func c11BigSession(st *VStream, stats *VStats, r *VRand, nSuffix, nFull int) {
+	log := logrus.New()
+	log.SetOutput(io.Discard)
+	ss := &c11Sess{m: NewAhocorasickSlimtrie(log, 64)}
+	st.Emit("new 64", "ok")
+	gen := func(n int) []string {
+		out := make([]string, 0, n)
+		for len(out) < n {
+			var p string
+			switch {
+			case len(out) > 10 && r.Chance(0.05):
+				p = out[r.Intn(len(out))] // duplicate
+			case len(out) > 10 && r.Chance(0.25):
+				p = c11Label(r) + "." + strings.TrimPrefix(out[r.Intn(len(out))], ".") // sub-name of another
+			case r.Chance(0.03):
+				p = "." + c11Name(r)
+			default:
+				p = c11Label(r) + strconv.Itoa(r.Intn(100000)) + "." + c11Name(r)
+			}
+			out = append(out, p)
+		}
+		return out
+	}
+	suf := gen(nSuffix)
+	ss.pool = append(ss.pool, suf...)
+	ss.add(st, 5, "suffix", suf)
+	if nFull > 0 {
+		full := gen(nFull)
+		copy(full[:nFull/10], suf[:nFull/10]) // the same names under both kinds: identical `^d$` keys
+		ss.pool = append(ss.pool, full...)
+		ss.add(st, 5, "full", full[:nFull/2])
+		ss.add(st, 37, "full", full[nFull/2:])
+	}
+	ss.add(st, 63, "keyword", []string{"zzqq", "^ad", ".gov$"})
+	c11Max(stats, "dm.set.size.max", nSuffix)
+	stats.Inc("dm.session.big")
+	if ss.build(st, stats) != nil {
+		return
+	}
+	// every pattern as a name
+	outs := make([]string, len(ss.allPats))
+	hit := 0
+	for i, p := range ss.allPats {
+		o := strings.TrimPrefix(c11Query(ss.m, p), "w=")
+		outs[i] = o
+		if strings.Trim(o, "0.-") != "" {
+			hit++
+		}
+	}
+	st.Emit("qall", fmt.Sprintf("n=%d hit=%d h=%x", len(outs), hit, c11FnvStr(strings.Join(outs, " "))))
+	stats.Add("dm.probe.qall", len(outs))
+	for q := 0; q < 300; q++ {
+		p := strings.TrimPrefix(ss.pool[r.Intn(len(ss.pool))], ".")
+		switch r.Intn(5) {
+		case 0:
+			ss.query(st, stats, p)
+		case 1:
+			ss.query(st, stats, c11Label(r)+"."+p)
+		case 2:
+			ss.query(st, stats, c11Label(r)+p)
+		case 3:
+			if len(p) > 1 {
+				ss.query(st, stats, p[1:])
+			}
+		default:
+			ss.query(st, stats, strings.ToUpper(p)+".")
+		}
+	}
+}
+
+func c11ValidSet(f func(byte) bool) string {
+	b := []byte{}
+	for c := 0; c < 256; c++ {
+		if f(byte(c)) {
+			b = append(b, byte(c))
+		}
+	}
+	return hex.EncodeToString(b)
+}
+
+// the Aho-Corasick library driven directly: overlapping keywords at scale
+func c11AcCases(st *VStream, stats *VStats, r *VRand, cases, maxKw int) {
+	const al = "abcdefghijklmnopqrstuvwxyz-.^$1234567890_"
+	for n := 0; n < cases; n++ {
+		nk := r.Range(1, 30)
+		if n%5 == 0 {
+			nk = r.Range(maxKw/2, maxKw)
+		}
+		small := al[:r.Range(2, 6)] // small alphabet: many overlaps / shared prefixes / suffixes of one another
+		kws := make([]string, 0, nk)
+		for len(kws) < nk {
+			var k string
+			if len(kws) > 0 && r.Chance(0.5) {
+				b := kws[r.Intn(len(kws))]
+				switch r.Intn(3) {
+				case 0:
+					k = b[r.Intn(len(b)+1):]
+				case 1:
+					k = b[:r.Intn(len(b)+1)]
+				default:
+					k = b + string(small[r.Intn(len(small))])
+				}
+			} else {
+				l := r.Range(1, 9)
+				bb := make([]byte, l)
+				for i := range bb {
+					if r.Chance(0.8) {
+						bb[i] = small[r.Intn(len(small))]
+					} else {
+						bb[i] = al[r.Intn(len(al))]
+					}
+				}
+				k = string(bb)
+			}
+			if k == "" && r.Chance(0.8) {
+				continue
+			}
+			kws = append(kws, k)
+		}
+		if r.Chance(0.03) {
+			kws[r.Intn(len(kws))] += "A" // outside the library's alphabet: NewMatcher errors
+		}
+		ins := make([]string, 0, 60)
+		for len(ins) < 60 {
+			l := r.Range(0, 14)
+			bb := make([]byte, l)
+			for i := range bb {
+				bb[i] = small[r.Intn(len(small))]
+			}
+			in := string(bb)
+			if r.Chance(0.3) {
+				in = in + kws[r.Intn(len(kws))] + in
+			}
+			if r.Chance(0.05) {
+				in += "/B" // read as 'a' by the library's table
+			}
+			ins = append(ins, in)
+		}
+		kb := make([][]byte, len(kws))
+		kh := make([]string, len(kws))
+		for i, k := range kws {
+			kb[i] = []byte(k)
+			kh[i] = c11Hex(k)
+		}
+		ih := make([]string, len(ins))
+		for i, in := range ins {
+			ih[i] = c11Hex(in)
+		}
+		out := VRecover(func() string {
+			mm, err := ahocorasick.NewMatcher(kb)
+			if err != nil {
+				return "err"
+			}
+			var sb strings.Builder
+			sb.WriteString("r=")
+			for _, in := range ins {
+				if mm.Contains([]byte(in)) {
+					sb.WriteByte('1')
+				} else {
+					sb.WriteByte('0')
+				}
+			}
+			return sb.String()
+		})
+		st.Emit(fmt.Sprintf("ac %s %s", strings.Join(kh, ","), strings.Join(ih, ",")), out)
+		stats.Inc("ac.cases")
+		c11Max(stats, "ac.keywords.max", len(kws))
 	}
 }
 
@@ -415,17 +754,26 @@ func TestVerifC11Matcher(t *testing.T) {
 	stats := NewVStats()
 	st := VOpenStream("c11dm")
 	defer st.Close()
-	sessions, maxPat, nq := 150, 2000, 120
+
+	// the real tables the model hard-codes
+	st.Emit("alpha d", "valid="+c11ValidSet(ValidDomainChars.IsValidChar)+" | order=-")
+	st.Emit("alpha ac", "valid="+c11ValidSet(ahocorasick.IsValidChar)+" | order=-")
+
+	sessions, maxPat, nq := 150, 2000, 110
 	if VThorough() {
-		sessions, maxPat, nq = 840, 3000, 260
+		sessions, maxPat, nq = 800, 3000, 240
 	}
 	for s := 0; s < sessions; s++ {
 		bitLen := 1024
 		switch r.Intn(10) {
 		case 0:
-			bitLen = []int{1, 3, 32, 33, 64, 65}[r.Intn(6)]
+			bitLen = []int{1, 3, 31, 32, 33, 64, 65, 96, 1000}[r.Intn(9)]
 		case 1:
 			bitLen = 64
+		}
+		if r.Chance(0.01) {
+			bitLen = 0
+			stats.Inc("dm.table.size0")
 		}
 		nsets := r.Range(1, 6)
 		if r.Chance(0.2) {
@@ -435,11 +783,138 @@ func TestVerifC11Matcher(t *testing.T) {
 		if s%12 == 0 {
 			mp = maxPat // a large set now and then
 		}
-		if VThorough() && s%280 == 5 {
-			mp = 50000 // geosite scale (three sessions)
-			stats.Inc("dm.session.geosite_scale")
+		if bitLen == 0 {
+			// every AddSet is an oversize error
+			log := logrus.New()
+			log.SetOutput(io.Discard)
+			ss := &c11Sess{m: NewAhocorasickSlimtrie(log, 0)}
+			st.Emit("new 0", "ok")
+			if r.Bool() {
+				ss.add(st, 0, "full", []string{"a.com"})
+			}
+			ss.build(st, stats)
+			ss.query(st, stats, "a.com")
+			continue
 		}
 		c11RunSession(st, stats, r, bitLen, nsets, mp, nq)
 	}
+	// geosite scale, deterministically
+	if VThorough() {
+		c11BigSession(st, stats, r, 100000, 20000) // ~2*10^5 trie keys in one set
+		c11BigSession(st, stats, r, 50000, 10000)
+	} else {
+		c11BigSession(st, stats, r, 10000, 2000)
+	}
+	if VThorough() {
+		c11AcCases(st, stats, r, 120, 10000)
+	} else {
+		c11AcCases(st, stats, r, 40, 1500)
+	}
+	keys := make([]string, 0, len(stats.C))
+	for k := range stats.C {
+		keys = append(keys, k)
+	}
+	sort.Strings(keys)
 	stats.Write("c11dm")
+}
+
+// ---- concurrency (built with -race): concurrent queries must equal the sequential answers, and
+// Build's goroutine fan-out must not lose a set ------------------------------------------------
+
+func TestVerifC11Concurrent(t *testing.T) {
+	r := NewVRand(VSeed() + 23)
+	stats := NewVStats()
+	st := VOpenStream("c11cc")
+	defer st.Close()
+	sessions := 40
+	if VThorough() {
+		sessions = 160
+	}
+	for s := 0; s < sessions; s++ {
+		log := logrus.New()
+		log.SetOutput(io.Discard)
+		m := NewAhocorasickSlimtrie(log, 1024)
+		nsets := r.Range(24, 60) // many small sets: Build's workers finish close together
+		type own struct {
+			idx  int
+			name string
+		}
+		owns := []own{}
+		desc := []string{}
+		used := map[int]bool{}
+		for i := 0; i < nsets; i++ {
+			idx := r.Intn(1024)
+			if used[idx] {
+				continue
+			}
+			used[idx] = true
+			kind := []string{"full", "suffix", "keyword", "regex"}[r.Intn(4)]
+			base := fmt.Sprintf("s%d-%d.%s", s, i, c11Name(r))
+			pat := base
+			switch kind {
+			case "keyword":
+				pat = fmt.Sprintf("kw%dx%dq", s, i)
+				base = "a" + pat + "b.com"
+			case "regex":
+				pat = fmt.Sprintf(`^rx%d-%d\.`, s, i)
+				base = fmt.Sprintf("rx%d-%d.com", s, i)
+			}
+			extra := []string{}
+			for k := r.Intn(4); k > 0; k-- {
+				if kind == "full" || kind == "suffix" {
+					extra = append(extra, c11Name(r))
+				}
+			}
+			m.AddSet(idx, append([]string{pat}, extra...), consts.RoutingDomainKey(kind))
+			owns = append(owns, own{idx, base})
+			desc = append(desc, fmt.Sprintf("%d:%s:%s", idx, kind, c11Hex(pat)))
+		}
+		st.ops.Flush()
+		st.impl.Flush()
+		res := "same"
+		if err := m.Build(); err != nil {
+			res = "builderr:" + err.Error()
+		}
+		// every set must answer for its own pattern (a lost index-list append would silence one)
+		names := []string{}
+		for _, o := range owns {
+			names = append(names, o.name)
+			bm := m.MatchDomainBitmap(o.name)
+			if res == "same" && bm[o.idx/32]&(1<<(uint(o.idx)%32)) == 0 {
+				res = fmt.Sprintf("lost-set:%d", o.idx)
+			}
+		}
+		for i := 0; i < 40; i++ {
+			names = append(names, c11Name(r), c11LongName(r, 70)+"."+owns[r.Intn(len(owns))].name)
+		}
+		seq := make([]string, len(names))
+		for i, nm := range names {
+			seq[i] = c11Words(m.MatchDomainBitmap(nm))
+		}
+		var wg sync.WaitGroup
+		var mu sync.Mutex
+		for g := 0; g < 8; g++ {
+			wg.Add(1)
+			rr := r.Fork()
+			go func() {
+				defer wg.Done()
+				for k := 0; k < 3*len(names); k++ {
+					i := rr.Intn(len(names))
+					if got := c11Words(m.MatchDomainBitmap(names[i])); got != seq[i] {
+						mu.Lock()
+						if res == "same" {
+							res = fmt.Sprintf("concurrent-differs:%s:seq=%s:conc=%s", c11Hex(names[i]), seq[i], got)
+						}
+						mu.Unlock()
+					}
+				}
+			}()
+		}
+		wg.Wait()
+		stats.Add("cc.queries", 8*3*len(names))
+		stats.Inc("cc.sessions")
+		stats.Add("cc.sets", len(owns))
+		st.Emit("cc "+strings.Join(desc, " "), res)
+	}
+	stats.Write("c11cc")
 }
